@@ -957,6 +957,7 @@ func partC(e *engine) {
 
 	ops := map[string]int{}
 	var noEcho []string
+	crashSeen := map[string]bool{}
 	var ran, started, startFailed, stopHang, timeouts, crashes, notAccepted int64
 	var transitions int64
 	for i, o := range outs {
@@ -972,10 +973,14 @@ func partC(e *engine) {
 			c.Cap("smoke worker exceeded its time cap for " + smokeKey(set[i]))
 		case o.crashed:
 			crashes++
-			// confirm: the crash must show again when the configuration is run alone once more
-			again := runSmoke(e, set[i])
 			msg, frame := crashShape(o.stderr)
 			sig := "smoke-crash: " + msg + " @ " + frame
+			if crashSeen[sig] {
+				continue // the first (simplest) configuration with this crash is the one reported
+			}
+			crashSeen[sig] = true
+			// confirm: run the configuration alone once more
+			again := runSmoke(e, set[i])
 			what := fmt.Sprintf("an accepted configuration crashes the process under the smoke script (exit %d; reproduced on re-run: %v)\n  %s\n  at %s\n  case %s\n  config: %s\n  crash dump (head):\n%s",
 				o.exit, again.crashed, msg, frame, smokeKey(set[i]), render(set[i].doc), indent(headStr(o.stderr, 1800)))
 			c.Violation(sig, what, map[string]any{"part": "C", "group": set[i].group, "case": set[i].desc, "doc": set[i].doc})
@@ -1067,6 +1072,14 @@ func replay(e *engine) bool {
 		doc, _ := r["doc"].(J)
 		e.evaluate(kase{group: group, desc: desc, doc: doc})
 		for _, m := range e.mismatches {
+			if strings.HasPrefix(m.sig, "load-crashes: ") {
+				// the real outcome, in a process that does not turn faults into panics
+				if o := runSmoke(e, kase{doc: doc}); o.crashed {
+					msg, frame := crashShape(o.stderr)
+					m.sig = "load-crashes: " + msg + " @ " + frame
+					m.what += fmt.Sprintf("\n  in a separate process it dies with exit code %d:\n%s", o.exit, indent(headStr(o.stderr, 2500)))
+				}
+			}
 			report(m.sig, m.what)
 		}
 	case "B":
